@@ -17,6 +17,7 @@ import (
 	"github.com/google/uuid"
 	"github.com/semafind/semadb/conversion"
 	"github.com/semafind/semadb/shard/index/inverted"
+	"github.com/semafind/semadb/shard/index/text"
 	"github.com/semafind/semadb/shard/pointstore"
 	"verifharness/vh"
 )
@@ -40,10 +41,36 @@ var nanPool = []uint64{0x7ff8000000000000, 0xfff8000000000000, 0x7ff000000000000
 
 func h64(x uint64) string { return fmt.Sprintf("%016x", x) }
 
-func encU(x uint64) []byte  { b, _ := inverted.VerifToByteSortable(x); return b }
-func encI(x int64) []byte   { b, _ := inverted.VerifToByteSortable(x); return b }
-func encF(x float64) []byte { b, _ := inverted.VerifToByteSortable(x); return b }
-func encS(x string) []byte  { b, _ := inverted.VerifToByteSortable(x); return b }
+// a value the property says has a key must not be refused by the encoder
+var encErrors []string
+
+func noteErr(kind, val string, err error) {
+	if err != nil && len(encErrors) < 20 {
+		encErrors = append(encErrors, kind+" "+val+": "+err.Error())
+	}
+}
+func encU(x uint64) []byte {
+	b, err := inverted.VerifToByteSortable(x)
+	noteErr("u64enc", h64(x), err)
+	return b
+}
+func encI(x int64) []byte {
+	b, err := inverted.VerifToByteSortable(x)
+	noteErr("i64enc", h64(uint64(x)), err)
+	return b
+}
+func encF(x float64) []byte {
+	b, err := inverted.VerifToByteSortable(x)
+	if x == x { // NaN is outside the property's domain
+		noteErr("f64enc", h64(math.Float64bits(x)), err)
+	}
+	return b
+}
+func encS(x string) []byte {
+	b, err := inverted.VerifToByteSortable(x)
+	noteErr("strenc", vh.Hex([]byte(x)), err)
+	return b
+}
 
 func main() {
 	seed := flag.Uint64("seed", 1, "PRNG seed")
@@ -72,6 +99,9 @@ func main() {
 	for _, x := range us {
 		e := encU(x)
 		o.Emit("u64enc", "u64enc "+h64(x), vh.Hex(e), true)
+		if len(e) != 8 || len(encI(int64(x))) != 8 {
+			continue
+		}
 		var back uint64
 		inverted.VerifFromByteSortable(e, &back)
 		o.Emit("u64dec", "u64dec "+vh.Hex(e), h64(back), true)
@@ -125,6 +155,9 @@ func main() {
 		f := math.Float64frombits(x)
 		e := encF(f)
 		o.Emit("f64enc", "f64enc "+h64(x), vh.Hex(e), true)
+		if len(e) != 8 {
+			continue // refused or malformed key: reported through encErrors / the model diff
+		}
 		var back float64
 		inverted.VerifFromByteSortable(e, &back)
 		o.Emit("f64dec", "f64dec "+vh.Hex(e), h64(math.Float64bits(back)), true)
@@ -149,6 +182,9 @@ func main() {
 			continue
 		}
 		ka, kb := encF(fa), encF(fb)
+		if len(ka) != 8 || len(kb) != 8 {
+			continue
+		}
 		if (bytes.Compare(ka, kb) < 0) != (fa < fb) {
 			o.Fail("float64-order:"+h64(a)+","+h64(b), fmt.Sprintf("float64 keys of %v and %v are ordered differently from the values", fa, fb), "f64enc "+h64(a)+"\nf64enc "+h64(b))
 		}
@@ -157,7 +193,7 @@ func main() {
 		}
 	}
 	// ---------------------------------------------------------------- strings / lex order
-	strs := []string{"", "a", "A", "ab", "aB", "b", "é", "É", "ß", "\x00", "\x00\x00", "\xff", "\xff\xff", "a\x00", "a\xff", "abc", "abd", "ab\x00c", strings.Repeat("z", 200)}
+	strs := []string{"s", "ss", "glass", "miss", "ts", "st", "t", "tt", "sts", "d", "", "a", "A", "ab", "aB", "b", "é", "É", "ß", "\x00", "\x00\x00", "\xff", "\xff\xff", "a\x00", "a\xff", "abc", "abd", "ab\x00c", strings.Repeat("z", 200)}
 	for i := 0; i < *n/4; i++ {
 		l := rng.Intn(6)
 		b := make([]byte, l)
@@ -175,8 +211,16 @@ func main() {
 		if back != s {
 			o.Fail("string-roundtrip:"+vh.Hex([]byte(s)), "string does not round-trip", "strenc "+vh.Hex([]byte(s)))
 		}
-		tk := verifTermKey(s)
+		tk := text.VerifTermKey(s)
 		o.Emit("termkey", "termkey "+vh.Hex([]byte(s)), vh.Hex(tk), true)
+		tb, tok := text.VerifTermIdFromKey(tk)
+		o.Emit("termid", "termid "+vh.Hex(tk), vh.Hex([]byte(tb))+" "+vh.B01(tok), true)
+		if !(tok && tb == s) {
+			o.Fail("termkey-roundtrip:"+vh.Hex([]byte(s)), fmt.Sprintf("term %q: key %s is read back as %q (recognised=%v)", s, vh.Hex(tk), tb, tok), "termkey "+vh.Hex([]byte(s)))
+		}
+		if _, isDoc := text.VerifDocIdFromKey(tk); isDoc && len(tk) != 9 {
+			o.Fail("termkey-as-document:"+vh.Hex([]byte(s)), "a term key is recognised as a document key", "termkey "+vh.Hex([]byte(s)))
+		}
 	}
 	for i := 0; i < len(strs)*3; i++ {
 		a, b := vh.Pick(rng, strs), vh.Pick(rng, strs)
@@ -207,8 +251,13 @@ func main() {
 		binary.BigEndian.PutUint64(u[8:], rng.U64())
 		pk := pointstore.PointKey(u, s)
 		o.Emit("pointkey", fmt.Sprintf("pointkey %s %02x", vh.Hex(u[:]), s), vh.Hex(pk), true)
-		dk := verifDocumentKey(x)
+		dk := text.VerifDocumentKey(x)
 		o.Emit("dockey", "dockey "+h64(x), vh.Hex(dk), true)
+		did, dok := text.VerifDocIdFromKey(dk)
+		o.Emit("docid", "docid "+vh.Hex(dk), h64(did)+" "+vh.B01(dok), true)
+		if !(dok && did == x) {
+			o.Fail("dockey-roundtrip:"+h64(x), "document key does not round-trip", "dockey "+h64(x))
+		}
 	}
 	// malformed keys through the recognisers
 	for i := 0; i < 300; i++ {
@@ -328,20 +377,12 @@ func main() {
 			o.Fail(fmt.Sprintf("edges-roundtrip:len%d", l), "edge list does not round-trip", "edgesenc "+ev)
 		}
 	}
+	for _, e := range encErrors {
+		f := strings.SplitN(e, ":", 2)
+		o.Fail("encode-refused:"+strings.Fields(f[0])[0]+":"+strings.Fields(f[0])[1], "the encoder refuses a value of the property's domain: "+e, f[0])
+	}
 	o.Close(map[string]any{"rule": "one case = one encode/decode/compare call; non-trivial = distinct op line whose input is not the NaN side stream (pairs: the two values differ)"})
 }
-
-// the text index keeps its key functions unexported; they are one-liners whose *generated* Lean
-// translation is what the theorems use. The harness recomputes them from their documented layout
-// ('d' + little-endian id; 't' + term + 's') — a change of layout in the source shows up as a
-// disagreement with the generated model.
-func verifDocumentKey(id uint64) []byte {
-	k := make([]byte, 9)
-	k[0] = 'd'
-	binary.LittleEndian.PutUint64(k[1:], id)
-	return k
-}
-func verifTermKey(t string) []byte { return []byte("t" + t + "s") }
 
 func doReplay(path string) {
 	f, err := os.Open(path)
